@@ -735,3 +735,139 @@ Proof.
          match goal with H : x < 256 |- _ => apply N.ltb_lt in H; now rewrite H end) end).
     reflexivity.
 Qed.
+
+(* ------------------------------------------------------------------ the executable form *)
+Lemma list_eqb_eq a : forall b, list_eqb a b = true <-> a = b.
+Proof.
+  induction a as [|x a IH]; intros [|y b]; cbn [list_eqb]; try (split; [discriminate|congruence]); [tauto|].
+  rewrite andb_true_iff, N.eqb_eq, IH. split; [intros [-> ->]; reflexivity|intros E; inversion E; tauto].
+Qed.
+Lemma all2_eq {A} (f : A -> A -> bool) :
+  (forall x y, f x y = true <-> x = y) -> forall a b, all2 f a b = true <-> a = b.
+Proof.
+  intros Hf; induction a as [|x a IH]; intros [|y b]; cbn [all2]; try (split; [discriminate|congruence]); [tauto|].
+  rewrite andb_true_iff, Hf, IH. split; [intros [-> ->]; reflexivity|intros E; inversion E; tauto].
+Qed.
+Lemma txin_eqb_eq a b : txin_eqb a b = true <-> a = b.
+Proof.
+  destruct a as [h1 i1 s1 w1 q1], b as [h2 i2 s2 w2 q2]; unfold txin_eqb; cbn [ti_hash ti_index ti_script ti_witness ti_seq].
+  rewrite !andb_true_iff, !list_eqb_eq, !N.eqb_eq, (all2_eq list_eqb list_eqb_eq).
+  split; [intros [[[[-> ->] ->] ->] ->]; reflexivity|intros E; inversion E; tauto].
+Qed.
+Lemma txout_eqb_eq a b : txout_eqb a b = true <-> a = b.
+Proof.
+  destruct a as [v1 s1], b as [v2 s2]; unfold txout_eqb; cbn [to_value to_script].
+  rewrite andb_true_iff, list_eqb_eq, Z.eqb_eq.
+  split; [intros [-> ->]; reflexivity|intros E; inversion E; tauto].
+Qed.
+Lemma tx_eqb_eq a b : tx_eqb a b = true <-> a = b.
+Proof.
+  destruct a as [v1 i1 o1 l1], b as [v2 i2 o2 l2]; unfold tx_eqb; cbn [tx_version tx_ins tx_outs tx_locktime].
+  rewrite !andb_true_iff, Z.eqb_eq, N.eqb_eq, (all2_eq txin_eqb txin_eqb_eq), (all2_eq txout_eqb txout_eqb_eq).
+  split; [intros [[[-> ->] ->] ->]; reflexivity|intros E; inversion E; tauto].
+Qed.
+
+Lemma otx_is_some o t : otx_is o (Some t) = true -> exists d, o = TOk d /\ x_tx d = t.
+Proof. destruct o as [d| |]; cbn [otx_is]; try discriminate. intros H; apply tx_eqb_eq in H. eauto. Qed.
+
+Lemma spec_tx_sound c :
+  spec_tx c = true ->
+  let t := x_tx (tc_tx c) in
+  tx_wf t = true -> tx_ins t <> [] ->
+  (exists d, tc_deser_wit c = TOk d /\ x_tx d = t) /\
+  (exists d, tc_deser_std c = TOk d /\ x_tx d = strip_witness t) /\
+  (exists s v i o l, tc_ser_std c = OB s /\ tc_version c = OB v /\ tc_inputs c = OB i /\
+                     tc_outputs c = OB o /\ tc_locktime c = OB l /\
+                     expand s = expand v ++ expand i ++ expand o ++ expand l) /\
+  tc_hash_is_std c = true /\ tc_whash_is_wit c = true /\ tc_hash_same c = true.
+Proof.
+  intros H t Hwf Hne. unfold spec_tx in H. fold t in H. rewrite Hwf in H.
+  destruct (tx_ins t) as [|ti0 l0] eqn:Ei; [congruence|]. cbn [negb orb is_nil] in H.
+  split_and.
+  repeat match goal with H : otx_is _ (Some _) = true |- _ => apply otx_is_some in H end.
+  destruct (tc_ser_std c) as [s|]; [|discriminate].
+  destruct (tc_version c) as [v|]; [|discriminate].
+  destruct (tc_inputs c) as [i|]; [|discriminate].
+  destruct (tc_outputs c) as [o|]; [|discriminate].
+  destruct (tc_locktime c) as [l|]; [|discriminate].
+  split_and.
+  match goal with H : list_eqb _ _ = true |- _ => apply list_eqb_eq in H end.
+  repeat split; try assumption. exists s, v, i, o, l. repeat split; assumption.
+Qed.
+
+(* embedding of model values into the compact case notation *)
+Definition emb (l : list N) : list chunk := map (R 1) l.
+Definition emb_in (ti : txin) : ctxin :=
+  {| ci_hash := emb (ti_hash ti); ci_index := ti_index ti; ci_script := emb (ti_script ti);
+     ci_witness := map (fun i => (1, emb i)) (ti_witness ti); ci_seq := ti_seq ti |}.
+Definition emb_out (o : txout) : ctxout := {| co_value := to_value o; co_script := emb (to_script o) |}.
+Definition emb_tx (t : tx) : ctx :=
+  {| c_version := tx_version t; c_ins := map (fun i => (1, emb_in i)) (tx_ins t);
+     c_outs := map (fun o => (1, emb_out o)) (tx_outs t); c_locktime := tx_locktime t |}.
+Definition emb_ob (o : option (list N)) : obytes := match o with Some b => OB (emb b) | None => OPanic end.
+Definition emb_otx (o : option tx) : otx := match o with Some t => TOk (emb_tx t) | None => TErr end.
+
+(* the case whose observables are the model's own outputs *)
+Definition model_case (c : ctx) : tx_case :=
+  let t := x_tx c in
+  {| tc_tx := c;
+     tc_ser_std := OB (emb (serialize Standard t)); tc_ser_wit := OB (emb (serialize Witness t));
+     tc_version := OB (emb (ser_version t)); tc_inputs := emb_ob (serialize_inputs t);
+     tc_outputs := emb_ob (serialize_outputs t); tc_locktime := OB (emb (ser_locktime t));
+     tc_deser_std := emb_otx (deserialize (serialize Standard t));
+     tc_deser_wit := emb_otx (deserialize (serialize Witness t));
+     tc_hash_is_std := true; tc_whash_is_wit := true; tc_hash_same := true |}.
+
+Lemma expand_emb l : expand (emb l) = l.
+Proof. unfold expand, emb. induction l as [|b l IH]; [reflexivity|]. cbn [map flat_map]. rewrite IH. reflexivity. Qed.
+Lemma expand_runs_one {A B} (f : A -> B) (g : B -> A) l :
+  (forall x, f (g x) = x) -> expand_runs f (map (fun x => (1, g x)) l) = l.
+Proof.
+  intros H. unfold expand_runs. induction l as [|x l IH]; [reflexivity|].
+  cbn [map flat_map fst snd]. rewrite IH, H. reflexivity.
+Qed.
+Lemma x_emb_in ti : x_in (emb_in ti) = ti.
+Proof.
+  destruct ti as [h i s w q]; unfold x_in, emb_in; cbn [ci_hash ci_index ci_script ci_witness ci_seq ti_hash ti_index ti_script ti_witness ti_seq].
+  rewrite !expand_emb, (expand_runs_one expand emb) by apply expand_emb. reflexivity.
+Qed.
+Lemma x_emb_out o : x_out (emb_out o) = o.
+Proof. destruct o as [v s]; unfold x_out, emb_out; cbn [co_value co_script to_value to_script]. now rewrite expand_emb. Qed.
+Lemma x_emb_tx t : x_tx (emb_tx t) = t.
+Proof.
+  destruct t as [v i o l]; unfold x_tx, emb_tx; cbn [c_version c_ins c_outs c_locktime tx_version tx_ins tx_outs tx_locktime].
+  rewrite (expand_runs_one x_in emb_in) by apply x_emb_in.
+  rewrite (expand_runs_one x_out emb_out) by apply x_emb_out. reflexivity.
+Qed.
+
+Lemma ob_is_emb b : ob_is (OB (emb b)) b = true.
+Proof. cbn [ob_is]. rewrite expand_emb. now apply list_eqb_eq. Qed.
+Lemma ob_is_opt_emb o : ob_is_opt (emb_ob o) o = true.
+Proof. destruct o as [b|]; cbn [emb_ob ob_is_opt]; [|reflexivity]. rewrite expand_emb. now apply list_eqb_eq. Qed.
+Lemma otx_is_emb o : otx_is (emb_otx o) o = true.
+Proof. destruct o as [t|]; cbn [emb_otx otx_is]; [|reflexivity]. rewrite x_emb_tx. now apply tx_eqb_eq. Qed.
+
+Lemma tx_wf_hashes t : tx_wf t = true -> Forall (fun ti => length (ti_hash ti) = 32%nat) (tx_ins t).
+Proof.
+  unfold tx_wf; intros H; split_and. apply Forall_forall. intros ti Hti.
+  match goal with H : forallb txin_wf _ = true |- _ => pose proof (forallb_In _ _ _ H Hti) as W end.
+  unfold txin_wf in W; split_and. now apply Nat.eqb_eq.
+Qed.
+
+Lemma model_outputs_pass_spec c : spec_tx (model_case c) = true /\ agree_tx (model_case c) = true.
+Proof.
+  split.
+  - unfold spec_tx. cbn [model_case tc_tx tc_ser_std tc_ser_wit tc_version tc_inputs tc_outputs tc_locktime
+                          tc_deser_std tc_deser_wit tc_hash_is_std tc_whash_is_wit tc_hash_same].
+    set (t := x_tx c). destruct (tx_wf t) eqn:Hwf; [|reflexivity].
+    destruct (tx_ins t) as [|ti l] eqn:Ei; [reflexivity|]. cbn [negb orb is_nil].
+    assert (Hne : tx_ins t <> []) by congruence.
+    destruct (deserialize_serialize t Hwf Hne) as [D1 D2]. rewrite D1, D2.
+    destruct (parts_are_slices_of_whole t (tx_wf_hashes t Hwf)) as (P1 & P2 & P3 & P4 & P5).
+    rewrite P1, P2. cbn [emb_otx emb_ob otx_is]. rewrite !x_emb_tx.
+    rewrite (proj2 (tx_eqb_eq t t) eq_refl), (proj2 (tx_eqb_eq _ _) eq_refl).
+    rewrite !expand_emb, P4, P5, <- P3, (proj2 (list_eqb_eq _ _) eq_refl). reflexivity.
+  - unfold agree_tx. cbn [model_case tc_tx tc_ser_std tc_ser_wit tc_version tc_inputs tc_outputs tc_locktime
+                            tc_deser_std tc_deser_wit].
+    now rewrite !ob_is_emb, !ob_is_opt_emb, !otx_is_emb.
+Qed.
